@@ -1,5 +1,5 @@
 (* C01 — csvdump reproduces every on-disk block, tx, input and output field exactly. Pinned statements only: each theorem is closed by `exact` of a lemma proved in theories/. *)
-From RBP Require Import Bytes Hashes Wire Block BlockP Render Index Model CsvP.
+From RBP Require Import Bytes Hashes Wire Block BlockP Render Index Model ModelP StoreP CsvP EndToEnd.
 From RBP Require Drive Merkle Utxo Stats OutProto Reader Published Misc.
 
 Theorem C01_compactsize_roundtrip :
@@ -62,6 +62,18 @@ Theorem C01_decimal_field_clean :
   forall n : N, clean (dec n).
 Proof. exact dec_clean. Qed.
 
+Theorem C01_end_to_end_delivered :
+  forall (c : coin) (d : datadir) (o : opts) (ci : chain_index) (chain : N -> ablock) (size : N -> N), range_ok (o_range o) = true -> d_files d <> [] -> new_index (d_index d) (o_range o) = Ok ci -> o_verify o = false -> d_xor d <> Some [] -> let s := o_start (o_range o) in s <= ci_max ci + 1 -> laid_out c d ci s chain size -> exists r : result, run_case c d o = Run r /\ r_fail r = None /\ last_height r = ci_max ci /\ r_delivered r = map (fun h : N => (h, eval_block c (parsed_block (size h) (chain h)))) (Drive.heights s (N.to_nat (ci_max ci + 1 - s))).
+Proof. exact delivered_are_the_parsed_blocks. Qed.
+
+Theorem C01_end_to_end_csv :
+  forall (c : coin) (d : datadir) (o : opts) (ci : chain_index) (chain : N -> ablock) (size : N -> N), range_ok (o_range o) = true -> d_files d <> [] -> new_index (d_index d) (o_range o) = Ok ci -> o_verify o = false -> d_xor d <> Some [] -> let s := o_start (o_range o) in s <= ci_max ci + 1 -> laid_out c d ci s chain size -> exists r : result, run_case c d o = Run r /\ r_fail r = None /\ last_height r = ci_max ci /\ csv_writes (r_delivered r) = flat_map (fun h : N => csv_block_writes (h, eval_block c (parsed_block (size h) (chain h)))) (Drive.heights s (N.to_nat (ci_max ci + 1 - s))).
+Proof. exact csv_of_laid_out_chain. Qed.
+
+Theorem C01_parsed_counts_consistent :
+  forall (c : coin) (size : N) (b : ablock), counts_consistent (eval_block c (parsed_block size b)).
+Proof. exact parsed_block_counts_consistent. Qed.
+
 Print Assumptions C01_compactsize_roundtrip.
 Print Assumptions C01_tx_roundtrip.
 Print Assumptions C01_txid_is_stripped_hash.
@@ -77,3 +89,6 @@ Print Assumptions C01_hex_length.
 Print Assumptions C01_decimal_invertible.
 Print Assumptions C01_hex_field_clean.
 Print Assumptions C01_decimal_field_clean.
+Print Assumptions C01_end_to_end_delivered.
+Print Assumptions C01_end_to_end_csv.
+Print Assumptions C01_parsed_counts_consistent.
